@@ -45,6 +45,7 @@ pub fn family_of(prop: &str) -> &'static str {
         "C01" | "C02" | "C03" | "C04" | "C05" | "C07" | "C11" | "C12" | "C13" | "C14" | "C15" => "D",
         "C06" => "Z",
         "C09" => "W9",
+        "C08" | "C17" => "W8",
         _ => "?",
     }
 }
@@ -63,6 +64,7 @@ pub fn explore(prop: &str, seed: u64, index: u64, thorough: bool, st: &mut Stats
         }
         "Z" => crate::zoo::explore(index, seed, thorough, st),
         "W9" => Some(crate::w9::explore(seed, st)),
+        "W8" => Some(crate::w8::explore(prop, seed, thorough, st)),
         _ => panic!("no engine for property {}", prop),
     }
 }
@@ -72,6 +74,7 @@ pub fn eval(r: &Replay) -> EvalOut {
         "D" => dfamily::eval_replay(r),
         "Z" => crate::zoo::eval_replay(r),
         "W9" => crate::w9::eval_replay(r),
+        "W8" => crate::w8::eval_replay(r),
         f => panic!("unknown family {}", f),
     }
 }
